@@ -178,8 +178,12 @@ impl Obs {
                     } else {
                         self.lyc = v;
                     }
-                    // a request caused by the write itself is left open, and only while LY = LYC
-                    if lcd::position(self.t).line == self.lyc {
+                    // a request caused by the write itself is left open only where the write
+                    // enables a source whose condition already holds: LY = LYC with the
+                    // coincidence enable set, or (STAT writes) the current mode's enable
+                    let pos = lcd::position(self.t);
+                    let mode_bit = [lcd::STAT_MODE0, lcd::STAT_MODE1, lcd::STAT_MODE2, 0][pos.mode as usize & 3];
+                    if (pos.line == self.lyc && self.stat_en & lcd::STAT_LYC != 0) || (addr == 0xff41 && self.stat_en & mode_bit != 0) {
                         if_loose |= 2;
                         self.stats.stat_loose += 1;
                     }
